@@ -21,6 +21,8 @@ from torchsnapshot.manifest_utils import (
     is_fully_replicated_entry,
 )
 
+from .flatten import _encode
+
 from .knobs import is_sharded_tensor_elasticity_enabled_at_root_only
 
 from .manifest import (
@@ -281,7 +283,6 @@ def _remove_entry(manifest: Manifest, logical_path: str) -> None:
 
     parent = manifest[parent_path]
     if is_dict_entry(parent):
-        if key in parent.keys:
-            parent.keys.remove(key)
-        else:
-            parent.keys.remove(int(key))
+        # The last path component is the escaped str() form of the dict key
+        # (see flatten()), which may be an int, a bool or contain "/" or "%".
+        parent.keys = [k for k in parent.keys if _encode(str(k)) != key]
